@@ -323,7 +323,7 @@ def _source_coverage():
     import coverage
     os.makedirs(d, exist_ok=True)
     cov = coverage.Coverage(data_file=os.path.join(d, 'cov.%s.%d' % (sys.argv[1], os.getpid())), branch=True,
-                            source=[os.path.join(os.environ.get('MICROSCHC_REPO', '/repo'), 'microschc')])
+                            include=[os.path.join(os.environ.get('MICROSCHC_REPO', '/repo'), 'microschc', '*'), os.path.join(os.environ.get('MICROSCHC_REPO', '/repo'), 'microschc.py')])
     cov.start()
 
     def done():
